@@ -330,17 +330,8 @@ def nontrivial(case, verdict):
 
 
 def signature(case, verdict, failed):
-    """classification of a failing case for known_findings.json; the known classes require that the
-    implementation did exactly what the model of today's code predicts (agree)"""
-    t = set(verdict.get("tags", []))
-    generic = f"{case['op']}:k{case['k']}:{case['kind']}:{'re:' if case.get('re') else ''}{'/'.join(sorted(failed))}"
-    if not verdict.get("agree"):
-        return generic
-    empty_sizes = (case["op"] == "unequal" and case.get("sizes") == []) or \
-                  bool(case.get("re") and case["re"]["op"] == "unequal" and case["re"].get("sizes") == [])
-    if empty_sizes:
-        return "unequal:empty-sizes-drop-everything"
-    return generic
+    """classification of a failing case (no open finding class is left for C08)"""
+    return f"{case['op']}:k{case['k']}:{case['kind']}:{'re:' if case.get('re') else ''}{'/'.join(sorted(failed))}"
 
 
 def shrink_candidates(case):
